@@ -16,7 +16,7 @@ META = {
     "text": "(a) LogOrder.tla models one call (unary / producer / exchange, with and without header; pipe, HTTP, and HTTP "
             "with max_response_bytes where a producer's turns are buffered into one response) at the "
             "granularity of log batches, data batches and stream boundaries: messages logged in the method body, before "
-            "and after the batch of every process() step, in steps that finish or raise; every client reader delivers "
+            "and after the batch of every process() step, in steps that finish, raise, or emit-log-and-then-raise; every client reader delivers "
             "what it meets, including the reads done by the three ways of leaving a session (close / cancel / __exit__) "
             "right after any turn or before the first.  TLC explores every script up to the bounds and checks "
             "ExactlyOnceNoDuplicate / OnlyEmitted / InEmissionOrder / DeliveredBeforeOutcome / DeliveredByEndOfStream / "
